@@ -333,6 +333,9 @@ pub fn gen_ops(rng: &mut Rng, wl: &Workload, allow_fmt_fail: bool) -> Vec<Op> {
     ops
 }
 
+/// `times` of a fault that never stops firing.
+pub const PERSISTENT: u32 = 1_000_000;
+
 /// Offset-keyed fault script.  `out_len` is the length of what the inner writer will be asked to
 /// accept in total; `starts` are accepted-byte offsets at which a printable run begins (faults are
 /// biased to land there and just after, i.e. inside operations with in-flight state).
@@ -366,7 +369,11 @@ pub fn gen_faults(rng: &mut Rng, out_len: usize, starts: &[usize], allow_hard: b
             17 => FaultKind::FlushErr(rng.below(3) as u8),
             _ => FaultKind::Short(1),
         };
-        let times = if rng.chance(1, 6) { rng.range(2, 3) as u32 } else { 1 };
+        let mut times = if rng.chance(1, 6) { rng.range(2, 3) as u32 } else { 1 };
+        if kind == FaultKind::Zero && rng.chance(1, 4) {
+            // the writer refuses data for good from here on (a full disk, a closed console)
+            times = PERSISTENT;
+        }
         v.push(Fault { at, kind, times });
         // cooperating faults: a short write directly followed by an interruption (or another
         // fault) at the offset it leaves the writer at - retry loops that restart see this
